@@ -334,3 +334,20 @@ Proof.
     rewrite renq_max, renq_abs by assumption.
     rewrite lastn_lastn_app, <- app_assoc. reflexivity.
 Qed.
+
+(* ---------- summary: the two refinement squares ---------- *)
+Lemma renq_refines : forall x r, ring_inv r ->
+  ring_inv (renq x r) /\ rvalues (renq x r) = lastn (rmax r) (rvalues r ++ [x]).
+Proof.
+  intros x r H. split; [exact (renq_inv x r H)|exact (renq_abs x r H)].
+Qed.
+
+Lemma rdeq_refines : forall r, ring_inv r ->
+  ring_inv (fst (rdeq r)) /\
+  match rvalues r with
+  | [] => rdeq r = (r, None)
+  | y :: q => exists r', rdeq r = (r', Some y) /\ rvalues r' = q
+  end.
+Proof.
+  intros r H. split; [exact (rdeq_inv r H)|exact (rdeq_abs r H)].
+Qed.
